@@ -84,6 +84,7 @@ pub fn replay(path: &str) -> i32 {
         Some("serial-history") => serial_pty::replay_serial(scn),
         Some("rtu-server-pty") => serial_pty::replay_rtu_server(scn),
         Some("net-history") => lifecycle_net::replay_net(scn),
+        Some("c07-handshake") => lifecycle_net::replay_hs(scn),
         Some("client-session") => client_sm::replay_session(scn),
         Some("client-sm") => client_sm::replay(scn),
         Some("client-tie") => client_sm::replay_tie(scn),
